@@ -130,6 +130,14 @@ CHECKS = {
         "Flags compared as multisets; every .config assignment restates all settings still wanted.",
         "DESIGN.md section 4 C14",
     ),
+    "C15": (
+        "model-based generation of process-wide activity histories; differential against the same probe in fresh interpreters",
+        "Histories of unrelated parses, MasterConfig changes (temporary and persistent), TRS-cache clearing / disabling / pre-warming and "
+        "mutation of every returned dict / list are interleaved with probe calls; each probe result must equal the result of that probe in a "
+        "fresh interpreter started under the MasterConfig defaults then in force, and direction-less constructions must take exactly those defaults.",
+        "Reference subprocesses evaluate up to six probes each; a defect that affects a fresh interpreter identically (e.g. import-time binding) is only visible through the direction model check.",
+        "DESIGN.md section 4 C15",
+    ),
 }
 
 NOT_BUILT = {}
